@@ -33,18 +33,24 @@ func init() { props["C15"] = runC15 }
 // of the writer created while armed.
 type failingFS struct {
 	*bs.FileSystemDataStore
-	failAt int
+	failAt     int // which Write of the chosen writer fails (0 = never)
+	failWriter int // which writer created since arming (1-based; 0 = every writer)
+	created    int
 }
+
+func (f *failingFS) arm(writer, at int) { f.failWriter, f.failAt, f.created = writer, at, 0 }
+func (f *failingFS) disarm()            { f.failWriter, f.failAt, f.created = 0, 0, 0 }
 
 type failingWriter struct {
 	io.WriteCloser
-	fs *failingFS
-	n  int
+	fs  *failingFS
+	n   int
+	idx int
 }
 
 func (w *failingWriter) Write(p []byte) (int, error) {
 	w.n++
-	if w.fs.failAt > 0 && w.n == w.fs.failAt {
+	if w.fs.failAt > 0 && w.n == w.fs.failAt && (w.fs.failWriter == 0 || w.fs.failWriter == w.idx) {
 		return 0, errInjected
 	}
 	return w.WriteCloser.Write(p)
@@ -62,7 +68,8 @@ func (f *failingFS) CreateFile(ctx context.Context) (io.WriteCloser, []byte, err
 	if err != nil {
 		return w, p, err
 	}
-	return &failingWriter{WriteCloser: w, fs: f}, p, nil
+	f.created++
+	return &failingWriter{WriteCloser: w, fs: f, idx: f.created}, p, nil
 }
 
 type dirSnap map[string][]byte
@@ -78,6 +85,12 @@ func readDirSnap(dir string) dirSnap {
 		s[e.Name()] = b
 	}
 	return s
+}
+
+// mergeWindow: the filesystem mutations [start, end) issued by one Merge call.
+type mergeWindow struct {
+	start, end int
+	err        error
 }
 
 type fsEvent struct {
@@ -97,6 +110,7 @@ type crashRun struct {
 	ackAt  map[int]int // id -> number of mutations performed when its nil ack was observed
 	failed map[int]bool
 	merged int // mutation index at which the first merge began (-1: none)
+	merges []mergeWindow
 	names  int
 	desc   []string
 }
@@ -144,7 +158,9 @@ func (cr *crashRun) flush(parts []string, failAt int) {
 		rows = append(rows, map[string]any{"_id": cr.nextID, "p": p, "pad": strings.Repeat("x", 8)})
 		cr.sentAt[cr.nextID] = len(cr.events)
 	}
-	cr.ffs.failAt = failAt
+	if failAt > 0 {
+		cr.ffs.arm(1, failAt)
+	}
 	done := make(chan error, 1)
 	if err := cr.eng.IngestRows(context.Background(), rows, done); err != nil {
 		fatal("ingest: %v", err)
@@ -156,7 +172,7 @@ func (cr *crashRun) flush(parts []string, failAt int) {
 	case <-time.After(20 * time.Second):
 		fatal("no ack (flush err %v)", ferr)
 	}
-	cr.ffs.failAt = 0
+	cr.ffs.disarm()
 	for _, id := range ids {
 		if ack == nil {
 			cr.ackAt[id] = len(cr.events)
@@ -167,16 +183,22 @@ func (cr *crashRun) flush(parts []string, failAt int) {
 	cr.desc = append(cr.desc, fmt.Sprintf("flush%v failAt=%d ack=%v", parts, failAt, ack))
 }
 
-func (cr *crashRun) merge() {
+func (cr *crashRun) merge(failWriter, failAt int) {
 	if cr.merged < 0 {
 		cr.merged = len(cr.events)
 	}
+	start := len(cr.events)
+	if failAt > 0 {
+		cr.ffs.arm(failWriter, failAt)
+	}
 	st, err := cr.eng.Merge(context.Background())
+	cr.ffs.disarm()
+	cr.merges = append(cr.merges, mergeWindow{start, len(cr.events), err})
 	n := int64(0)
 	if st != nil {
 		n = st.FilesProcessed
 	}
-	cr.desc = append(cr.desc, fmt.Sprintf("merge files=%d err=%v", n, err))
+	cr.desc = append(cr.desc, fmt.Sprintf("merge files=%d failWriter=%d failAt=%d err=%v", n, failWriter, failAt, err))
 }
 
 // modelOps renders the observed mutation stream as crash-model operations.
@@ -431,7 +453,19 @@ func (cr *crashRun) check(c *ctx) {
 			c.r.Case(true, ck)
 			c.r.Hit("crash." + strings.SplitN(rs.kind, "(", 2)[0])
 			c.r.Hit("crash-before." + ev.op)
-			afterMerge := cr.merged >= 0 && k > cr.merged
+			// the recorded finding: the window between publishing a merge output and removing (durably) its sources
+			inMergeWindow, afterGoodMerge := false, false
+			for _, w := range cr.merges {
+				if k > w.start && k < w.end {
+					inMergeWindow = true
+				}
+				// (a failed multi-group merge publishes its first output durably and then removes it again without
+				// a directory fsync: the same non-durable removal as the successful merge's source removals)
+				if w.end > w.start && k >= w.end {
+					afterGoodMerge = true
+				}
+			}
+			afterMerge := inMergeWindow || (afterGoodMerge && strings.HasPrefix(rs.kind, "power-loss"))
 			replay := map[string]any{"history": cr.desc, "boundary": k, "before_op": ev.op + " " + ev.path, "crash": rs.kind, "directory": snapNames(rs.files), "mutations": ops}
 			if qerr != nil {
 				c.r.Add(Finding{Kind: "violation", Check: "crash-state-query-error", Detail: fmt.Sprintf("a fresh engine over the crash state fails its query: %v", qerr), Replay: replay})
@@ -485,7 +519,7 @@ func crashCfg(r Rng) bs.BloomSearchEngineConfig {
 	cfg.PartitionFunc = partitionFunc("p")
 	cfg.MaxBufferedTime = time.Hour
 	cfg.RowDataCompression = pick(r, []bs.CompressionType{bs.CompressionNone, bs.CompressionSnappy})
-	cfg.MaxRowGroupRows = pick(r, []int{1, 2, 100})
+	cfg.MaxRowGroupRows = pick(r, []int{2, 5, 10, 10, 100})
 	cfg.MaxFilesToMergePerOperation = 6
 	return cfg
 }
@@ -496,25 +530,57 @@ func runC15(c *ctx) {
 		"each distinct crash state is reopened by a fresh engine and queried: acknowledged rows present, nothing twice, no row of a failed flush, query succeeds. A child process under strace must issue exactly the syscall shape of the model's flush/abort/merge protocols. " +
 		"Non-trivial = every reopened crash state; distinct by (.dat content, acknowledged set)"
 	r := NewRng(c.seed, 1500)
-	n := 20 * c.scale
+	// scripted: two merge groups (partitions a and b), the second output fails at its k-th write
+	for k := 1; k <= 3; k++ {
+		cfg := crashCfg(r)
+		cfg.MaxRowGroupRows = 100
+		cr := newCrashRun(cfg, r)
+		cr.flush([]string{"a"}, 0)
+		cr.flush([]string{"a", "a"}, 0)
+		cr.flush([]string{"b"}, 0)
+		cr.flush([]string{"b", "b"}, 0)
+		cr.merge(2, k)
+		cr.flush([]string{"a"}, 0)
+		cr.finish()
+		cr.check(c)
+	}
+	n := 40 * c.scale
 	for i := 0; i < n; i++ {
 		cfg := crashCfg(r)
 		cr := newCrashRun(cfg, r)
-		steps := 3 + r.IntN(4)
-		for s := 0; s < steps; s++ {
-			switch op := r.Pick(10); {
-			case op < 6:
-				cr.flush(pick(r, [][]string{{"a"}, {"a", "b"}, {"a", "a"}, {"b"}}), 0)
-			case op < 8:
-				cr.flush(pick(r, [][]string{{"a"}, {"a", "b"}}), 1+r.IntN(6))
-			default:
-				cr.merge()
+		steps := 4 + r.IntN(6)
+		// with disjoint partition sets per file a merge forms several groups (one per partition)
+		disjoint := r.Chance(0.7)
+		good := [][]string{{"a"}, {"a", "b"}, {"a", "a"}, {"b"}, {"a", "a", "a", "a"}, {"b", "b", "b"}}
+		if disjoint {
+			good = [][]string{{"a"}, {"b"}, {"a", "a"}, {"b", "b"}, {"a", "a", "a", "a"}, {"b", "b", "b"}}
+		}
+		_ = steps
+		doMerge := func() {
+			if r.Chance(0.35) {
+				cr.merge(1+r.IntN(2), 1+r.IntN(5)) // the first or the second output fails at some write
+			} else {
+				cr.merge(0, 0)
 			}
 		}
+		for s := 0; s < 3+r.IntN(4); s++ {
+			if r.Chance(0.2) {
+				cr.flush(pick(r, [][]string{{"a"}, {"a", "b"}}), 1+r.IntN(6))
+			} else {
+				cr.flush(pick(r, good), 0)
+			}
+		}
+		doMerge()
+		for s := 0; s < r.IntN(3); s++ {
+			cr.flush(pick(r, good), 0)
+		}
 		if r.Chance(0.5) {
-			cr.merge()
+			doMerge()
 		}
 		cr.finish()
+		for _, w := range cr.merges {
+			c.r.Hit(fmt.Sprintf("merge.mutations-%d.err-%v", min(w.end-w.start, 40)/10*10, w.err != nil))
+		}
 		c.r.Sample(map[string]any{"history": cr.desc, "boundaries": len(cr.events)})
 		cr.check(c)
 	}
